@@ -9,9 +9,15 @@ Property theorems only.  `C20_accept_code` is stated about the definitions REGEN
 every run; the behaviour theorems are about the executable model `IceModel.AgentCore` (tied to the code by the
 differential correspondence of component `agent`, whose corpus `corpus/C20/agent.ops` holds the F8 scenarios).
 The model follows the code after the F8 fix (a deferred nomination remembers its value).
+The model follows the code after the fixes of F28–F31 (found by the two-agent proof below: the controlling selector
+ignores a response whose value does not exceed the highest answered value; a value-less nomination does not move the
+controlled selection once a value has been accepted, nor overwrite a deferred value; a deferred mark is cleared once
+acted upon).
 Two agents (`IceModel.Sys2`, last section): `C20_accepted_le_issued`, `C20_controlled_selects_max_accepted`,
-`C20_controlling_selects_last_answered`, `C20_quiescent_agreement_partial` for ALL schedules of an exchange, with
-witnesses for every hypothesis the proof forced (each replayed on the real agents, see notes/C20sys.md).
+`C20_controlling_selects_max_answered`, `C20_answered_le_accepted`, `C20_quiescent_agreement` for ALL schedules of an
+exchange; the one hypothesis that remains beyond scope conditions is "the exchange of the highest nomination completed"
+(a lost nomination is not retransmitted — witness, replayed on the real agents; see notes/C20sys.md).  The former
+counterexamples are regression examples.
 Not here: `C20_codec` (24-bit attribute codec, proved with C16's codec model).
 -/
 namespace IceProps.C20
@@ -24,13 +30,13 @@ open IceModel IceModel.AgentCore IceProofs.Agent IceTie.AgentNomination
 `cldHandleRequest` is "find-or-add the pair, count the request, `shouldAcceptNomination`, then either only a
 success response (rejected) or `cldProceed`" with exactly these functions inline. -/
 theorem C20_accept_code (hasValue : Bool) (value : UInt32) (hasLast : Bool) (last : UInt32)
-    (hasSelected samePair needsPrio : Bool) (selectedPrio pairPrio : UInt64) :
+    (hasSelected samePair hasLast' needsPrio : Bool) (selectedPrio pairPrio : UInt64) :
     (let g := IceGen.controlledSelector_shouldAcceptNomination hasValue value hasLast last
      (applyEffs g.1 (optOf hasLast last), g.2) = shouldAcceptNomination (optOf hasValue value) (optOf hasLast last))
-    ∧ IceGen.controlledSelector_shouldSwitchSelectedPair hasSelected samePair hasValue needsPrio selectedPrio pairPrio
-        = shouldSwitch hasSelected samePair hasValue needsPrio selectedPrio.toNat pairPrio.toNat :=
+    ∧ IceGen.controlledSelector_shouldSwitchSelectedPair hasSelected samePair hasValue hasLast' needsPrio selectedPrio pairPrio
+        = shouldSwitch hasSelected samePair hasValue hasLast' needsPrio selectedPrio.toNat pairPrio.toNat :=
   ⟨shouldAcceptNomination_gen_eq_model hasValue value hasLast last,
-   shouldSwitchSelectedPair_gen_eq_model hasSelected samePair hasValue needsPrio selectedPrio pairPrio⟩
+   shouldSwitchSelectedPair_gen_eq_model hasSelected samePair hasValue hasLast' needsPrio selectedPrio pairPrio⟩
 
 /-- the model's handler written with the stand-alone functions (no hypothesis, every state) -/
 theorem C20_accept_inline (a : Agent) (now : Nat) (m : Msg) (l r : Cand) :
@@ -460,7 +466,8 @@ example : (run exAgent scenA).pairPrio (((run exAgent scenA).pairById 2).getD de
 -- (b): the deferred value 5 is superseded by 7: when pair 2 validates the selection stays on pair 1
 example : (run exAgent (scenB.take 3)).selected = some 1 ∧ (run exAgent scenB).selected = some 1
     ∧ (run exAgent scenB).lastNomination = some 7 := by decide
-example : ((run exAgent scenB).pairById 2).map nv = some (2, PairState.succeeded, false, true, some 5) := by decide
+-- … and the mark is cleared once the pair's success response has been acted upon
+example : ((run exAgent scenB).pairById 2).map nv = some (2, PairState.succeeded, false, false, none) := by decide
 
 -- `C20_accept_only_greater` / `C20_lastNomination_max`: the runs are stable, offers and logs are as expected
 example : stable exAgent scenA = true ∧ acceptedLog exAgent scenA = [1, 2]
@@ -543,28 +550,31 @@ Vocabulary (`IceProofs.C20S`; every item is a decidable, executable definition):
 * `Fresh s0` — two freshly created agents (no candidates, pairs, selection, transactions, caches), nothing in flight;
   configuration, credentials, tie-breakers, topology arbitrary.
 * `Established s1` — the session is up and renomination has not begun: `Session s1` (both started and open, A
-  controlling, B controlled and a full agent, nobody Failed); A has a selected pair; NO nomination in flight, neither
-  valued nor ordinary (USE-CANDIDATE request); A has no valued transaction outstanding; B has accepted no value; no pair
-  of B carries a deferred-nomination mark.
+  controlling, B controlled and a full agent, nobody Failed); no nomination VALUE in flight; A has no valued transaction
+  outstanding and has processed no response to one; B has accepted no value; no pair of B carries a deferred value.
+  Ordinary nominations (USE-CANDIDATE without value) may be in flight, outstanding or deferred, and neither agent need
+  have selected a pair yet.
 * `Exchange s1 ex` — the course of the exchange: no Restart, no Close, and every state along `ex` is a `Session`
   (so: no role conflict lost, nobody enters Failed).  Everything else is allowed: any API call (signalling of further
   candidates, data, ticks …), any delivery order, duplication, loss.
 * `hist s1 ex : Hist` — the monotone history of the exchange, accumulated over the agent events the schedule makes the
   agents execute (`microEvs`), each judged in the state the agent executes it in:
   `issued` = the log of nominations A issued (`issueOf`: `RenominateCandidate` answered `ok`; entry = value, local
-  address, remote address); `answered` = the nomination whose success response A processed last (`answerOf`: an
+  address, remote address); `answered` = the log of nominations whose success response A processed (`answerOf`: an
   authenticated response that matches an outstanding, unexpired, symmetric transaction of a listed pair);
   `accepted` = the value B accepted last (`accepted` of the single-agent theorems) with the local address the request
   arrived on and its source address.
 * `Quiesced s` — "the exchange has quiesced": (1) no STUN message carrying a nomination value is in flight, (2) A has
-  no nomination transaction outstanding, (3) B has no deferred nomination waiting for the validation of its pair.
+  no valued nomination transaction outstanding, (3) the highest value B has accepted is not still waiting, as a
+  deferred nomination, for the validation of its pair.
   Conjunct by conjunct against the text: (1) a request still in flight can be accepted and move B, its response can
   move A; (2) an outstanding transaction means a response may still come (or came and is among (1)); without (1)+(2)
-  the selections can still change, with them no event other than a NEW `RenominateCandidate` changes them
-  (`answerOf`/`acceptAt` need a valued transaction / message); (3) a deferred nomination waiting for its pair's check is
-  a nomination B has accepted but not yet acted upon — B's selection still lags behind its own `lastNomination`.
-  Only (3) is used by the proof of the agreement theorem (the premise `hA` below already pins the traffic that
-  matters); (1) and (2) make the state final (`C20_quiesced_rests`); satisfiable: see the example (three renominations, requests out of order and duplicated).
+  the selections can still change, with them no event other than a NEW `RenominateCandidate` moves an existing
+  selection (`C20_quiesced_rests`); (3) a deferred nomination with B's highest value waiting for its pair's check is a
+  nomination B has accepted but not yet acted upon — B's selection still lags behind its own `lastNomination`
+  (deferred nominations with smaller values, and deferred ordinary nominations, may wait for ever: they no longer
+  move the selection).  Only (3) is used by the proof of the agreement theorem (the premise `hA` below already pins
+  the traffic that matters); (1) and (2) make the state final; satisfiable: see the examples.
 * `mirror nat la ra = (unmapped ra, mapped la)` — the mirror image modulo NAT of A's address pair `(la, ra)`, as in
   `C01_mirror_partial`: B's local address is the real address behind `ra`, B's remote address is `la` seen through the
   NAT.  `selAddrs x` = (local address, remote address) of the selected pair of agent `x`.
@@ -638,71 +648,75 @@ theorem C20_controlled_selects_max_accepted (s0 : Sys) (pre ex : List SysEv) (s1
   subst hs1 hs
   exact controlled_selects_max_accepted hf pre ex he hex hz v hv
 
-/-- **C20_controlling_selects_last_answered** — in every state of every exchange A's selected pair is the pair of the
-nomination whose success response A processed LAST (not: of the highest value — see the witnesses below). -/
-theorem C20_controlling_selects_last_answered (s0 : Sys) (pre ex : List SysEv) (s1 s : Sys)
+/-- **C20_controlling_selects_max_answered** — in every state of every exchange, once A has processed the success
+response to a nomination, A's selected pair is the pair of the answered nomination with the GREATEST value: responses
+processed out of order, or to a nomination B rejected, do not move it (fix of F28). -/
+theorem C20_controlling_selects_max_answered (s0 : Sys) (pre ex : List SysEv) (s1 s : Sys)
     (hs1 : s1 = Sys.runs s0 pre) (hs : s = Sys.runs s1 ex) (hf : Fresh s0) (he : Established s1)
     (hex : Exchange s1 ex) (hz : PositiveValues (hist s1 ex).issued) (x : Nomination)
-    (hx : (hist s1 ex).answered = some x) :
-    x ∈ (hist s1 ex).issued ∧ selAddrs s.a = some (x.2.1, x.2.2) := by
+    (hx : x ∈ (hist s1 ex).answered) :
+    ∃ y ∈ (hist s1 ex).answered, y ∈ (hist s1 ex).issued ∧ (∀ z ∈ (hist s1 ex).answered, z.1 ≤ y.1) ∧
+      selAddrs s.a = some (y.2.1, y.2.2) := by
   subst hs1 hs
-  exact controlling_selects_last_answered hf pre ex he hex hz x hx
+  exact controlling_selects_max_answered hf pre ex he hex hz x hx
 
-/-- **C20_answered_le_accepted** — in every state of every exchange: B has handed the nomination whose response A
-processed last to its selector, so B's highest accepted value is at least that nomination's value.  (Transaction ids:
+/-- **C20_answered_le_accepted** — in every state of every exchange: B has handed every nomination whose response A
+has processed to its selector, so B's highest accepted value is at least that nomination's value.  (Transaction ids:
 A hands out even ids below `2·nextTid`, B odd ids; a request in flight with the id of an outstanding valued transaction
 of A is that nomination and carries ICE-CONTROLLING, so A itself never answers it; a success response with that id
 was emitted by B's controlled selector after `shouldAcceptNomination`.) -/
 theorem C20_answered_le_accepted (s0 : Sys) (pre ex : List SysEv) (s1 s : Sys)
     (hs1 : s1 = Sys.runs s0 pre) (hs : s = Sys.runs s1 ex) (hf : Fresh s0) (he : Established s1)
     (hex : Exchange s1 ex) (hz : PositiveValues (hist s1 ex).issued) (x : Nomination)
-    (hx : (hist s1 ex).answered = some x) :
+    (hx : x ∈ (hist s1 ex).answered) :
     ∃ last, s.b.lastNomination = some last ∧ x.1 ≤ last := by
   subst hs1 hs
   exact answered_le_accepted hf pre ex he hex hz x hx
 
-/-- **C20_quiescent_agreement_partial.**
+/-- **C20_quiescent_agreement** — sentence 2 of the property, for ALL schedules `pre` (from two fresh agents to an
+established session) and `ex` (the exchange: any API calls, any delivery order, duplication, loss): if the exchange has
+quiesced, `x = (v, la, ra)` is the nomination with the highest value A issued and (`hA`) A has processed the success
+response to `x`, THEN A's selected pair is `(la, ra)` and B's selected pair is its mirror image modulo NAT.  (That B
+has accepted `v` follows: `C20_answered_le_accepted` and `C20_accepted_le_issued`.)
 
-FULL statement (property text, FALSE for the code — witnesses below): in every quiesced state of an exchange both
-agents have selected the mirror-image pair on which A issued the highest nomination value, for all arrival orders,
-duplications and losses.
-
-PROVED, for ALL schedules `pre` (from two fresh agents to an established session) and `ex` (the exchange): if the
-exchange has quiesced, `x = (v, la, ra)` is the nomination with the highest value A issued (the only one with that
-value, all values positive) and (`hA`) the success response A processed last is the one of `x`, THEN A's selected pair
-is `(la, ra)` and B's selected pair is its mirror image modulo NAT.  (That B has accepted `v` follows:
-`C20_answered_le_accepted` and `C20_accepted_le_issued`.)
-
-What is missing relative to the full statement, and why (each is forced — the conclusion is false without it, in the
-model AND on the real agents; see the `…_witness` theorems and notes/C20sys.md):
-* `hA`: the controlling side switches on EVERY success response to a valued nomination, in arrival order, and the
-  controlled side answers a rejected nomination with a success response too — so responses processed out of order, or
-  values issued in non-increasing order, leave A on a pair that does not carry the highest value;
-  a lost nomination (request or response) is never retransmitted, so A may never process the response of `x`.
-* `Established`: "no ordinary nomination in flight" and "no deferred-nomination mark at B" — an ordinary (value-less)
-  nomination, or a success response on a pair that once deferred an ordinary nomination (the mark is never cleared),
-  moves B back to a higher-priority pair although B has accepted a value since.
-* `Exchange`: no Restart / Close / Failed / lost role conflict while the exchange runs (these re-install the selector
-  or wipe the checklist; `C20_reset_clears`). -/
-theorem C20_quiescent_agreement_partial (s0 : Sys) (pre ex : List SysEv) (s1 s : Sys)
+The hypotheses, and why each is there:
+* `hA` — the exchange of the highest nomination COMPLETED (it was not lost).  This is the one behavioural hypothesis,
+  and it is forced: a nomination is sent once and never retransmitted, so when its request or its response is dropped
+  (or its transaction expires first) the state quiesces with A — and, if the request was lost, B too — still on the
+  pair of an earlier nomination (`C20_quiescent_agreement_needs_completed_witness`; W4 in notes/C20sys.md, replayed
+  on the real agents; not fixed in the code).  `hA` no longer says anything about ORDER: the response may have been
+  processed before or after those of other nominations (fix of F28).
+* `hmax` (`IsMax`) — `x` carries the highest value issued and is the only nomination with that value;
+  `PositiveValues` — value 0 is sent without the attribute, i.e. as an ordinary nomination.
+* `Established` / `Exchange` — scope: the values of this exchange are the first ones (no value in flight, answered or
+  accepted before), and no Restart / Close / Failed / lost role conflict while the exchange runs (these re-install the
+  selector or wipe the checklist; `C20_reset_clears`).  Ordinary nominations — in flight, outstanding, deferred — are
+  allowed everywhere (fixes of F29, F30, F31: they no longer move B off the pair of an accepted value). -/
+theorem C20_quiescent_agreement (s0 : Sys) (pre ex : List SysEv) (s1 s : Sys)
     (hs1 : s1 = Sys.runs s0 pre) (hs : s = Sys.runs s1 ex) (hf : Fresh s0) (he : Established s1)
     (hex : Exchange s1 ex) (hz : PositiveValues (hist s1 ex).issued) (x : Nomination)
-    (hq : Quiesced s) (hmax : IsMax (hist s1 ex).issued x) (hA : (hist s1 ex).answered = some x) :
+    (hq : Quiesced s) (hmax : IsMax (hist s1 ex).issued x) (hA : x ∈ (hist s1 ex).answered) :
     selAddrs s.a = some (x.2.1, x.2.2) ∧ selAddrs s.b = some (mirror s0.nat x.2.1 x.2.2) := by
   subst hs1 hs
-  exact quiescent_agreement' hf pre ex he hex hz x hq hmax hA
+  exact quiescent_agreement hf pre ex he hex hz x hq hmax hA
 
 /-- **C20_quiesced_rests** — `Quiesced` is final: from a quiesced state of an exchange, along EVERY continuation `ex2`
 in which A does not call `RenominateCandidate` again (`ExchangeK rests`: no Restart / Close / RenominateCandidate among
 the API events, every state a `Session`) — any deliveries, duplicates, drops, ticks, signalling, data — the state stays
-quiesced and both agents keep their selected pair (same pair id, same addresses).  So with conjuncts (1) and (2) of
-`Quiesced` no datagram in flight can still change a selection. -/
+quiesced; a pair A has selected stays selected (same id, same addresses); B's highest accepted value stays, and once B
+has accepted a value a pair B has selected stays selected.  So with conjuncts (1) and (2) of `Quiesced` no datagram in
+flight can still move an agreed selection.  (Where nothing is selected yet, or B has accepted no value, an ordinary
+nomination may still select: that is the ordinary ICE nomination.) -/
 theorem C20_quiesced_rests (s0 : Sys) (pre ex ex2 : List SysEv) (s1 s s2 : Sys) (hs1 : s1 = Sys.runs s0 pre)
     (hs : s = Sys.runs s1 ex) (hs2 : s2 = Sys.runs s ex2) (hf : Fresh s0) (he : Established s1)
     (hex : Exchange s1 ex) (hz : PositiveValues (hist s1 ex).issued) (hq : Quiesced s)
     (hex2 : ExchangeK rests s ex2) :
-    Quiesced s2 ∧ s2.a.selected = s.a.selected ∧ s2.b.selected = s.b.selected ∧
-    (∀ x, selAddrs s.a = some x → selAddrs s2.a = some x) ∧ (∀ x, selAddrs s.b = some x → selAddrs s2.b = some x) := by
+    Quiesced s2 ∧ (∀ id, s.a.selected = some id → s2.a.selected = some id) ∧
+    (∀ x, selAddrs s.a = some x → selAddrs s2.a = some x) ∧
+    s2.b.lastNomination = s.b.lastNomination ∧
+    (s.b.lastNomination.isSome = true →
+      (∀ id, s.b.selected = some id → s2.b.selected = some id) ∧
+      (∀ x, selAddrs s.b = some x → selAddrs s2.b = some x)) := by
   subst hs1 hs hs2
   exact quiesced_rests hf pre ex ex2 he hex hz hq hex2
 
@@ -760,6 +774,15 @@ def preMarked : List SysEv :=
   setup ++ dl [0, 3] ++ [.advance 200000000] ++ dl [4, 1, 7] ++ drain 14 ++ [.advance 2200000000] ++ dl [1, 0, 1]
 /-- one renomination (1 on 16–192), completed on both sides; then the keepalive is answered -/
 def exMarked : List SysEv := [.api false (.renominate 2200000000 16 1 1)] ++ dl [1, 1] ++ dl [0, 0]
+/-- A's checks have succeeded, B's check of 16–176 has not; A's tick sends the ordinary nomination of 16–176; nobody
+has selected anything yet -/
+def preEarly : List SysEv := setup ++ dl [0, 0, 2, 3, 1, 3] ++ [.advance 200000000]
+/-- value 1 on 16–192 (completed), value 2 on 16–176: deferred at B (pair not yet valid) and answered; then the
+ordinary nomination of 16–176 arrives at B (it must not overwrite the deferred value 2), then B's check of 16–176
+succeeds; everything else delivered -/
+def exEarly : List SysEv :=
+  [.api false (.renominate 200000000 16 1 1)] ++ dl [5, 5] ++ [.api false (.renominate 200000000 16 0 2)] ++
+    dl [5, 5, 3, 0, 6] ++ drain 8
 
 /-- the same agents with A behind a NAT: A's address 16 is seen as 336 -/
 def s0Nat : Sys := { s0 with nat := [(16, 336)] }
@@ -787,12 +810,13 @@ open IceModel.Sys2 (Sys Dgram)
 open IceProofs.Sys2Run IceProofs.C20S Sys2Example
 
 set_option maxRecDepth 100000 in
-/-- **Non-vacuity.**  Every hypothesis of `C20_quiescent_agreement_partial` holds on a run with three renominations
-whose requests arrive out of order and duplicated: session established, exchange, positive values, quiesced,
-`(3, 16, 192)` the highest nomination, answered last, accepted by B — and indeed A ends on 16–192, B on 192–16. -/
+/-- **Non-vacuity.**  Every hypothesis of `C20_quiescent_agreement` holds on a run with three renominations whose
+requests arrive out of order and duplicated: session established, exchange, positive values, quiesced,
+`(3, 16, 192)` the highest nomination, answered, accepted by B — and indeed A ends on 16–192, B on 192–16. -/
 example : Established (Sys.runs s0 pre) ∧ Exchange (Sys.runs s0 pre) exOk
     ∧ hist (Sys.runs s0 pre) exOk
-        = { issued := [(1, 16, 192), (2, 16, 176), (3, 16, 192)], answered := some (3, 16, 192), accepted := some (3, 192, 16) }
+        = { issued := [(1, 16, 192), (2, 16, 176), (3, 16, 192)],
+            answered := [(1, 16, 192), (2, 16, 176), (3, 16, 192)], accepted := some (3, 192, 16) }
     ∧ PositiveValues (hist (Sys.runs s0 pre) exOk).issued ∧ IsMax (hist (Sys.runs s0 pre) exOk).issued (3, 16, 192)
     ∧ Quiesced (Sys.runs (Sys.runs s0 pre) exOk)
     ∧ (Sys.runs (Sys.runs s0 pre) exOk).b.lastNomination = some 3
@@ -814,7 +838,8 @@ set_option maxRecDepth 100000 in
 renominations A is on 16–192 and B on its mirror image 192–336. -/
 example : Established (Sys.runs s0Nat preNat) ∧ Exchange (Sys.runs s0Nat preNat) exNat
     ∧ hist (Sys.runs s0Nat preNat) exNat
-        = { issued := [(1, 16, 192), (2, 16, 176), (3, 16, 192)], answered := some (3, 16, 192), accepted := some (3, 192, 336) }
+        = { issued := [(1, 16, 192), (2, 16, 176), (3, 16, 192)],
+            answered := [(1, 16, 192), (2, 16, 176), (3, 16, 192)], accepted := some (3, 192, 336) }
     ∧ Quiesced (Sys.runs (Sys.runs s0Nat preNat) exNat)
     ∧ selAddrs (Sys.runs s0Nat preNat).a = some (16, 176) ∧ selAddrs (Sys.runs s0Nat preNat).b = some (176, 336)
     ∧ selAddrs (Sys.runs (Sys.runs s0Nat preNat) exNat).a = some (16, 192)
@@ -822,89 +847,103 @@ example : Established (Sys.runs s0Nat preNat) ∧ Exchange (Sys.runs s0Nat preNa
   decide
 
 set_option maxRecDepth 100000 in
-/-- **`hA` is forced (responses out of order).**  Without the premise "the response A processed last is the one of the
-highest nomination" the theorem is false: values 1 and 2 issued in increasing order, requests delivered in order, all
-other hypotheses hold (also: B has accepted the highest value) — A processes the response to 2 before the response to 1 and ends on the pair of
-value 1 while B is on the mirror image of the pair of value 2.  Replayed on the real agents. -/
-theorem C20_quiescent_agreement_needs_answered_last_witness :
+/-- **`hA` is forced (loss — W4, not fixed in the code).**  Without the premise "A has processed the success response
+to the highest nomination" the theorem is false: value 1 on 16–192 completes, the request of value 2 on 16–176 is
+dropped, a nomination is never retransmitted, the transaction expires; the state is quiesced, all other hypotheses hold,
+both agents stay on the pair of value 1 — nobody ever learns of value 2.  Replayed on the real agents. -/
+theorem C20_quiescent_agreement_needs_completed_witness :
     ¬ (∀ (s0 : Sys) (pre ex : List SysEv) (s1 s : Sys), s1 = Sys.runs s0 pre → s = Sys.runs s1 ex → Fresh s0 →
         Established s1 → Exchange s1 ex → PositiveValues (hist s1 ex).issued → ∀ x : Nomination,
-        Quiesced s → IsMax (hist s1 ex).issued x → s.b.lastNomination = some x.1 →
+        Quiesced s → IsMax (hist s1 ex).issued x →
         selAddrs s.a = some (x.2.1, x.2.2) ∧ selAddrs s.b = some (mirror s0.nat x.2.1 x.2.2)) := by
   intro h
-  have := h s0 pre exReordered _ _ rfl rfl C20_example_fresh (by decide) (by decide) (by decide) (2, 16, 176) (by decide) (by decide)
-    (by decide)
+  have := h s0 pre exLost _ _ rfl rfl C20_example_fresh (by decide) (by decide) (by decide) (2, 16, 176) (by decide) (by decide)
   revert this
   decide
 
 set_option maxRecDepth 100000 in
-/-- the same with non-increasing values: 5 then 3 — B rejects 3 but answers it, A switches to the pair of 3 -/
-example : Established (Sys.runs s0 pre) ∧ Exchange (Sys.runs s0 pre) exDecreasing
-    ∧ hist (Sys.runs s0 pre) exDecreasing
-        = { issued := [(5, 16, 192), (3, 16, 176)], answered := some (3, 16, 176), accepted := some (5, 192, 16) }
-    ∧ Quiesced (Sys.runs (Sys.runs s0 pre) exDecreasing)
-    ∧ selAddrs (Sys.runs (Sys.runs s0 pre) exDecreasing).a = some (16, 176)
-    ∧ selAddrs (Sys.runs (Sys.runs s0 pre) exDecreasing).b = some (192, 16) := by
-  decide
-
-set_option maxRecDepth 100000 in
-/-- … and with loss: a nomination is never retransmitted.  The request of the highest value is dropped, its transaction
-expires; the state is quiesced, all other hypotheses hold, both agents stay on the pair of value 1 (`hA` is
-false: nobody ever learns of value 2 on 16–176). -/
+/-- the run of the witness: what the history records, and where the agents are -/
 example : Established (Sys.runs s0 pre) ∧ Exchange (Sys.runs s0 pre) exLost
     ∧ hist (Sys.runs s0 pre) exLost
-        = { issued := [(1, 16, 192), (2, 16, 176)], answered := some (1, 16, 192), accepted := some (1, 192, 16) }
+        = { issued := [(1, 16, 192), (2, 16, 176)], answered := [(1, 16, 192)], accepted := some (1, 192, 16) }
     ∧ IsMax (hist (Sys.runs s0 pre) exLost).issued (2, 16, 176)
     ∧ Quiesced (Sys.runs (Sys.runs s0 pre) exLost)
     ∧ selAddrs (Sys.runs (Sys.runs s0 pre) exLost).a = some (16, 192)
     ∧ selAddrs (Sys.runs (Sys.runs s0 pre) exLost).b = some (192, 16) := by
   decide
 
-/-- `Established` without "no ordinary nomination in flight" -/
-def EstablishedButOrdinaryInFlight (s : Sys) : Prop :=
-  Session s ∧ s.a.selected.isSome = true ∧ (∀ d ∈ s.inflight, valFree d = true) ∧
-  (∀ pd ∈ s.a.pending, pd.nom = none) ∧ s.b.lastNomination = none ∧
-  (∀ p ∈ s.b.checklist, p.nomOnSuccess = false ∧ p.deferredNom = none)
-instance (s : Sys) : Decidable (EstablishedButOrdinaryInFlight s) := by
-  unfold EstablishedButOrdinaryInFlight; infer_instance
+/-! ### regressions: the former counterexamples (F28–F31) now end in agreement
+
+Each run satisfies every hypothesis of `C20_quiescent_agreement` — `Established` in its present, weaker form — and the
+selections are as the theorem says.  Before the fixes each of them ended with the two agents on different pairs (in the
+model and on the real agents; the sessions are in corpus/C20/agent.ops). -/
 
 set_option maxRecDepth 100000 in
-/-- **"No ordinary nomination in flight" is forced.**  An ordinary nomination of the high-priority pair that is still
-in flight when the renomination to the lower-priority pair completes moves B back when it arrives: every other
-hypothesis holds (`hA` too, and B has accepted the value), A is on 16–192, B on 176–16.  Replayed on the real agents. -/
-theorem C20_quiescent_agreement_needs_no_ordinary_nomination_witness :
-    ¬ (∀ (s0 : Sys) (pre ex : List SysEv) (s1 s : Sys), s1 = Sys.runs s0 pre → s = Sys.runs s1 ex → Fresh s0 →
-        EstablishedButOrdinaryInFlight s1 → Exchange s1 ex → PositiveValues (hist s1 ex).issued → ∀ x : Nomination,
-        Quiesced s → IsMax (hist s1 ex).issued x → (hist s1 ex).answered = some x → s.b.lastNomination = some x.1 →
-        selAddrs s.a = some (x.2.1, x.2.2) ∧ selAddrs s.b = some (mirror s0.nat x.2.1 x.2.2)) := by
-  intro h
-  have := h s0 preStale exStale _ _ rfl rfl C20_example_fresh (by decide) (by decide) (by decide) (1, 16, 192) (by decide)
-    (by decide) (by decide) (by decide)
-  revert this
+/-- F28 (responses out of order): values 1 and 2 issued in increasing order, requests delivered in order, A processes
+the response to 2 BEFORE the response to 1 — and now stays on the pair of value 2. -/
+example : Established (Sys.runs s0 pre) ∧ Exchange (Sys.runs s0 pre) exReordered
+    ∧ hist (Sys.runs s0 pre) exReordered
+        = { issued := [(1, 16, 192), (2, 16, 176)], answered := [(2, 16, 176), (1, 16, 192)], accepted := some (2, 176, 16) }
+    ∧ PositiveValues (hist (Sys.runs s0 pre) exReordered).issued
+    ∧ IsMax (hist (Sys.runs s0 pre) exReordered).issued (2, 16, 176)
+    ∧ Quiesced (Sys.runs (Sys.runs s0 pre) exReordered)
+    ∧ selAddrs (Sys.runs (Sys.runs s0 pre) exReordered).a = some (16, 176)
+    ∧ selAddrs (Sys.runs (Sys.runs s0 pre) exReordered).b = some (mirror s0.nat 16 176) := by
   decide
 
-/-- `Established` without "no deferred-nomination mark at B" -/
-def EstablishedButMarked (s : Sys) : Prop :=
-  Session s ∧ s.a.selected.isSome = true ∧ (∀ d ∈ s.inflight, nomFree d = true) ∧
-  (∀ pd ∈ s.a.pending, pd.nom = none) ∧ s.b.lastNomination = none ∧
-  (∀ p ∈ s.b.checklist, p.deferredNom = none)
-instance (s : Sys) : Decidable (EstablishedButMarked s) := by unfold EstablishedButMarked; infer_instance
+set_option maxRecDepth 100000 in
+/-- F28 (non-increasing values): 5 then 3 — B rejects 3 but answers it with a success response; A now ignores that
+response and stays on the pair of value 5. -/
+example : Established (Sys.runs s0 pre) ∧ Exchange (Sys.runs s0 pre) exDecreasing
+    ∧ hist (Sys.runs s0 pre) exDecreasing
+        = { issued := [(5, 16, 192), (3, 16, 176)], answered := [(5, 16, 192), (3, 16, 176)], accepted := some (5, 192, 16) }
+    ∧ IsMax (hist (Sys.runs s0 pre) exDecreasing).issued (5, 16, 192)
+    ∧ Quiesced (Sys.runs (Sys.runs s0 pre) exDecreasing)
+    ∧ selAddrs (Sys.runs (Sys.runs s0 pre) exDecreasing).a = some (16, 192)
+    ∧ selAddrs (Sys.runs (Sys.runs s0 pre) exDecreasing).b = some (mirror s0.nat 16 192) := by
+  decide
 
 set_option maxRecDepth 100000 in
-/-- **"No deferred-nomination mark at B" is forced.**  B's selected pair was nominated through the deferred path (the
-mark `nomOnSuccess` is never cleared); a keepalive of B on that pair is outstanding when the renomination to the
-lower-priority pair completes; its success response re-runs the ordinary-nomination rule and moves B back.  No
-reordering, no loss, no duplication.  Every other hypothesis holds (`hA` too, and B has accepted the value).  Replayed on the real
-agents. -/
-theorem C20_quiescent_agreement_needs_no_deferred_mark_witness :
-    ¬ (∀ (s0 : Sys) (pre ex : List SysEv) (s1 s : Sys), s1 = Sys.runs s0 pre → s = Sys.runs s1 ex → Fresh s0 →
-        EstablishedButMarked s1 → Exchange s1 ex → PositiveValues (hist s1 ex).issued → ∀ x : Nomination,
-        Quiesced s → IsMax (hist s1 ex).issued x → (hist s1 ex).answered = some x → s.b.lastNomination = some x.1 →
-        selAddrs s.a = some (x.2.1, x.2.2) ∧ selAddrs s.b = some (mirror s0.nat x.2.1 x.2.2)) := by
-  intro h
-  have := h s0 preMarked exMarked _ _ rfl rfl C20_example_fresh (by decide) (by decide) (by decide) (1, 16, 192) (by decide)
-    (by decide) (by decide) (by decide)
-  revert this
+/-- F29 (stale ordinary nomination): an ordinary nomination of the high-priority pair is still in flight when the
+session is `Established` and arrives after the renomination to the lower-priority pair has completed — B now ignores
+it (a value has been accepted). -/
+example : Established (Sys.runs s0 preStale) ∧ Exchange (Sys.runs s0 preStale) exStale
+    ∧ ((Sys.runs s0 preStale).inflight.any fun d =>
+        match d.p with | .stun m => m.cls == 0 && m.useCand && m.nom.isNone | .data _ => false) = true
+    ∧ hist (Sys.runs s0 preStale) exStale
+        = { issued := [(1, 16, 192)], answered := [(1, 16, 192)], accepted := some (1, 192, 16) }
+    ∧ IsMax (hist (Sys.runs s0 preStale) exStale).issued (1, 16, 192)
+    ∧ Quiesced (Sys.runs (Sys.runs s0 preStale) exStale)
+    ∧ selAddrs (Sys.runs (Sys.runs s0 preStale) exStale).a = some (16, 192)
+    ∧ selAddrs (Sys.runs (Sys.runs s0 preStale) exStale).b = some (mirror s0.nat 16 192) := by
+  decide
+
+set_option maxRecDepth 100000 in
+/-- F30 (deferred mark never cleared): B's selected pair was nominated through the deferred path; a keepalive of B on
+that pair is outstanding when the renomination to the lower-priority pair completes; its success response no longer
+re-runs the nomination (the mark was cleared when it was acted upon). -/
+example : Established (Sys.runs s0 preMarked) ∧ Exchange (Sys.runs s0 preMarked) exMarked
+    ∧ hist (Sys.runs s0 preMarked) exMarked
+        = { issued := [(1, 16, 192)], answered := [(1, 16, 192)], accepted := some (1, 192, 16) }
+    ∧ IsMax (hist (Sys.runs s0 preMarked) exMarked).issued (1, 16, 192)
+    ∧ Quiesced (Sys.runs (Sys.runs s0 preMarked) exMarked)
+    ∧ (∀ p ∈ (Sys.runs s0 preMarked).b.checklist, p.nomOnSuccess = false)
+    ∧ selAddrs (Sys.runs (Sys.runs s0 preMarked) exMarked).a = some (16, 192)
+    ∧ selAddrs (Sys.runs (Sys.runs s0 preMarked) exMarked).b = some (mirror s0.nat 16 192) := by
+  decide
+
+set_option maxRecDepth 100000 in
+/-- F31 (ordinary nomination overwrote a deferred value): the exchange starts before anything is selected, with A's
+ordinary nomination of 16–176 in flight; value 2 on 16–176 is deferred at B (its check of the pair has not succeeded);
+the ordinary nomination arrives and no longer replaces the deferred value; when the pair validates B selects it. -/
+example : Established (Sys.runs s0 preEarly) ∧ Exchange (Sys.runs s0 preEarly) exEarly
+    ∧ selAddrs (Sys.runs s0 preEarly).a = none ∧ selAddrs (Sys.runs s0 preEarly).b = none
+    ∧ hist (Sys.runs s0 preEarly) exEarly
+        = { issued := [(1, 16, 192), (2, 16, 176)], answered := [(1, 16, 192), (2, 16, 176)], accepted := some (2, 176, 16) }
+    ∧ IsMax (hist (Sys.runs s0 preEarly) exEarly).issued (2, 16, 176)
+    ∧ Quiesced (Sys.runs (Sys.runs s0 preEarly) exEarly)
+    ∧ selAddrs (Sys.runs (Sys.runs s0 preEarly) exEarly).a = some (16, 176)
+    ∧ selAddrs (Sys.runs (Sys.runs s0 preEarly) exEarly).b = some (mirror s0.nat 16 176) := by
   decide
 
 end TwoAgentExamples
